@@ -187,6 +187,8 @@ def run(cx):
                 d.get('rhs_za', '').startswith('try(compute_za(') and '$rhs_id' in d['rhs_za'] and '$rhs_pk.point' in d['rhs_za'] and \
                 d.get('klen') == '$klen' and d.get('rhs_pk', '').endswith('$rhs_pk)') or d.get('rhs_pk') == '$rhs_pk'
             ok = bool(ok) and d.get('sk') in ('$sk', 'clone($sk)')
+        from .C03 import check_za_id
+        check_za_id(cx, '<impl exchange::Exchange>::new', 'Exchange::new', params=('id', 'rhs_id'), want_calls=2)
         cx.add('F-EX-NEW', 'Exchange::new', ok, 'za = Z(id, own key), rhs_za = Z(peer id, peer key), peer key and own private key stored: %s' % {k: FR.short(v, 60) for k, v in d.items()}, fnew.loc())
 
 
